@@ -7,8 +7,13 @@ m = json.load(open(os.path.join(V, "MANIFEST.json")))
 checks = [c["property_id"] for c in m["checks"]]
 res = {}
 bad = 0
+only = sys.argv[1].split(",") if len(sys.argv) > 1 else None
+if only and os.path.exists(os.path.join(V, "preserving", "RESULT.json")):
+    res = json.load(open(os.path.join(V, "preserving", "RESULT.json")))
 for patch in sorted(glob.glob(os.path.join(V, "preserving", "*.diff"))):
     name = os.path.basename(patch)[:-5]
+    if only and not any(name.startswith(o) for o in only):
+        continue
     scratch = tempfile.mkdtemp(prefix="preserve-")
     try:
         subprocess.run("git -C /repo worktree add -q --detach %s HEAD" % scratch, shell=True, check=True)
